@@ -255,7 +255,10 @@ def check_case(ctx, case, rng):
             vnew = dict(v1)
             vnew[n] = nv
             try:
-                setattr(obj, n, lib.build(T.__fields__[i].type, f["t"], nv, f))
+                libv = lib.alt_form(lib.build(T.__fields__[i].type, f["t"], nv, f), f["t"], rng)
+                if type(libv) in (str, int) and f["t"]["k"] != "wchar" and (f["t"]["k"] == "char" or f["t"].get("elem", {}).get("k") == "char"):
+                    ctx.event("char_assigned_as_str_or_int")
+                setattr(obj, n, libv)
                 d1 = obj.dumps()
             except Exception as e:  # noqa: BLE001
                 viol("locality", f"assignment-or-dump-raises:{type(e).__name__}", field=n, error=lib.exc_sig(e))
